@@ -262,7 +262,7 @@ def run_property(pid, spec, tier, seed, workdir, t0, only, nodiff):
             if res.get("sample") and len(samples) < 6:
                 samples.append(dict(harness=h["name"], draws=[d["val"] for d in res["sample"]][:24], observe=res.get("sample_observe")))
             # counterexamples -> native replay
-            for vi, v in enumerate(res["violations"] or []):
+            for vi, v in enumerate((res["violations"] or [])[:12]):
                 if v["kind"] == "unknown":
                     problems.append(f"{h['name']}[{solver}]: {v['msg']} at {v['site']}")
                     continue
